@@ -913,6 +913,11 @@ def computeMacroscopicGroupConstants(
             single=True,
         )
 
+    if macroGroupConstants is None:
+        # nothing contributed (empty composition or all densities zero): the sum over no nuclides is zero
+        numGroups = lib.numGroupsGamma if libType == "gammaXS" else lib.numGroups
+        macroGroupConstants = np.zeros(numGroups)
+
     return macroGroupConstants
 
 
